@@ -134,7 +134,6 @@ func (am *assetMgr) loadAsset(logger *slog.Logger, mpdPath string) error {
 		}
 	}
 	md.Dur = mpd.MediaPresentationDuration.String()
-	asset.MPDs[mpdName] = md
 
 	fillContentTypes(assetPath, mpd.Periods[0])
 
@@ -157,18 +156,22 @@ func (am *assetMgr) loadAsset(logger *slog.Logger, mpdPath string) error {
 			if len(r.Segments) == 0 {
 				return fmt.Errorf("rep %s of type %s has no segments", rep.Id, r.ContentType)
 			}
+			if as.ContentType == "audio" {
+				// Checked before the representation is registered: audio segments are re-cut sample by sample,
+				// and a registered representation without constant sample duration crashes every segment request.
+				if r.ConstantSampleDuration == nil || *r.ConstantSampleDuration == 0 {
+					return fmt.Errorf("asset %s audio rep %s does not have (known) constant sample duration", assetPath, r.ID)
+				}
+			}
 			asset.Reps[r.ID] = r
 			avgSegDurMS := int(math.Round(float64(r.duration()*1000.0)) / float64((r.MediaTimescale * len(r.Segments))))
 			if asset.SegmentDurMS == 0 || avgSegDurMS < asset.SegmentDurMS {
 				asset.SegmentDurMS = avgSegDurMS
 			}
-			if as.ContentType == "audio" {
-				if r.ConstantSampleDuration == nil || *r.ConstantSampleDuration == 0 {
-					return fmt.Errorf("asset %s audio rep %s does not have (known) constant sample duration", assetPath, r.ID)
-				}
-			}
 		}
 	}
+	// The MPD is registered when all its representations are there: an MPD request for a partly loaded MPD would crash
+	asset.MPDs[mpdName] = md
 	logger.Info("Asset MPD loaded")
 	return nil
 }
